@@ -1,4 +1,3 @@
-//@ fragment spec_value.rs
 // ---- spec 5.4 Arguments
 pub open spec fn supplied<'a, 'src>(args: Option<&'a Arguments<'src>>) -> Seq<(crate::nitrogql_ast::base::Ident<'src>, crate::nitrogql_ast::value::Value<'src>)> {
     match args { Some(a) => a.arguments@, None => Seq::empty() }
@@ -11,6 +10,7 @@ pub open spec fn is_first_named<'src>(sup: Seq<(crate::nitrogql_ast::base::Ident
 pub open spec fn some_named<'src>(sup: Seq<(crate::nitrogql_ast::base::Ident<'src>, crate::nitrogql_ast::value::Value<'src>)>, name: Seq<char>) -> bool {
     exists|i: int| 0 <= i < sup.len() && (#[trigger] sup[i]).0.name@ == name
 }
+//@ fragment spec_value.rs
 /// one argument definition against the supplied arguments:
 ///  5.4.2.1 Required Arguments: not supplied => the type is nullable or there is a default value;
 ///  5.6.1 supplied => the value is valid for the declared type
